@@ -534,7 +534,7 @@ class _Cwd:
         os.chdir(self.old)
 
 
-HANG_SECONDS = 12
+HANG_SECONDS = 30          # first attempt; a second, four times longer one decides (a loaded machine is no hang)
 
 
 def _in_child(fn, seconds):
@@ -712,6 +712,8 @@ def run_btamper(inp):
                         "where": pos, "len": len(text), "hang": False}
 
             how, res = _in_child(attempt, HANG_SECONDS)
+            if how == "hang":
+                how, res = _in_child(attempt, 4 * HANG_SECONDS)
             if how == "hang":
                 return {"rejected": "Hang", "before": before, "after": before, "problem": None,
                         "where": pos, "len": len(text), "hang": True}
